@@ -69,6 +69,9 @@ def gen_base(rng, gaussian_only):
     for op in spec["ops"]:
         if op["cls"] == "BSgate" and rng.random() < 0.4:
             op["pars"] = [PI4 + rng.choice([0, float(np.pi)]), PI2]
+        elif op["cls"] == "BSgate" and rng.random() < 0.4:
+            # the whole lattice of special angles around the symmetric point: balanced or not, real or imaginary reflection
+            op["pars"] = [rng.randint(0, 7) * PI4, rng.randint(0, 3) * PI2]
         if op["cls"] == "CXgate" and rng.random() < 0.3:
             op["pars"] = [0.0]
         if op["cls"] in ("MeasureFock",) and rng.random() < 0.3:
@@ -302,8 +305,27 @@ def corpus():
     ]
 
 
+def special_angle_pairs():
+    """every beamsplitter / CX on the lattice of special angles, applied to a non-trivial two-mode input in both mode orders:
+    the comparison may call the two orders equivalent only where the gate really is symmetric in its modes"""
+    S = dict(cls="Sgate", regs=[0], pars=[0.5, 0.3])
+    D = dict(cls="Dgate", regs=[1], pars=[0.4, 0.2])
+    out = []
+    for a in range(8):
+        for b in range(4):
+            for eps in (0.0, 3e-9):
+                g = dict(cls="BSgate", pars=[a * PI4 + eps, b * PI2 - eps])
+                out.append((dict(n=2, ops=[S, D, dict(g, regs=[0, 1])]), "swap_modes", dict(n=2, ops=[S, D, dict(g, regs=[1, 0])])))
+    for s_ in (0.0, 1e-9, 0.5):
+        g = dict(cls="CXgate", pars=[s_])
+        out.append((dict(n=2, ops=[S, D, dict(g, regs=[0, 1])]), "swap_modes", dict(n=2, ops=[S, D, dict(g, regs=[1, 0])])))
+    return [copy.deepcopy(t) for t in out]
+
+
 def run(ctx, sf):
     reqs, pending = [], []
+    for base, kind, var in special_angle_pairs():
+        one_pair(ctx, sf, base, kind, var, reqs, pending, gaussian_only=True)
     for base, kind, var in corpus():
         one_pair(ctx, sf, base, kind, var, reqs, pending, gaussian_only=not any(
             progs.category(o["cls"]) == "meas" for o in base["ops"] + var["ops"]))
